@@ -1013,6 +1013,8 @@ std::ostream& expression_t::print_bound_type(std::ostream& os, expression_t e) c
         if (e.get_value() == 0) {
             os << "#";
         }
+    } else if (get_precedence(LE) >= e.get_precedence()) {
+        e.print(os << '(', false) << ')';
     } else {
         e.print(os, false);
     }
@@ -1130,6 +1132,13 @@ static inline std::ostream& embrace(std::ostream& os, bool old, const expression
         return expr.print(os, old);
 }
 
+/** Prints the bound of "[<=bound]", "[#<=bound]" or "[expr<=bound]": a comparison or anything that binds
+    weaker has to be parenthesised, otherwise it merges with the "<=" in front of it. */
+static inline std::ostream& print_bound(std::ostream& os, bool old, const expression_t& bound)
+{
+    return embrace(os, old, bound, expression_t::get_precedence(LE));
+}
+
 int get_precedence_or_default(const expression_t& expr)
 {
     try {
@@ -1153,7 +1162,7 @@ std::ostream& expression_t::print(std::ostream& os, bool old) const
     case PROBA_MIN_DIAMOND:
         os << "Pr[";
         print_bound_type(os, get(1));
-        get(2).print(os, old);
+        print_bound(os, old, get(2));
         print_runs(os, get(0));
         os << (flag ? "]([] " : "](<> ");
         print_double(get(3).print(os, old) << ") >= ", get(4).get_double_value());
@@ -1163,7 +1172,7 @@ std::ostream& expression_t::print(std::ostream& os, bool old) const
     case PROBA_DIAMOND:
         os << "Pr[";
         print_bound_type(os, get(1));
-        get(2).print(os, old);
+        print_bound(os, old, get(2));
         print_runs(os, get(0));
         if (flag || (get(4).is_true() && get(4).get_type().is(Constants::BOOL))) {  // "<> p" is stored as "p U true"
             os << (flag ? "]([] " : "](<> ");
@@ -1177,7 +1186,7 @@ std::ostream& expression_t::print(std::ostream& os, bool old) const
     case PROBA_EXP:
         os << "E[";
         print_bound_type(os, get(1));
-        get(2).print(os, old);
+        print_bound(os, old, get(2));
         print_runs(os, get(0));
         os << "] (" << (get(3).get_value() ? "max: " : "min: ");
         get(4).print(os, old) << ")";
@@ -1186,13 +1195,13 @@ std::ostream& expression_t::print(std::ostream& os, bool old) const
     case PROBA_CMP:
         os << "Pr[";
         print_bound_type(os, get(0));
-        get(1).print(os, old) << "] (";
+        print_bound(os, old, get(1)) << "] (";
         os << (get(2).get_value() == kind_t::BOX ? "[] " : "<> ");
         get(3).print(os, old) << ") >= ";
 
         os << "Pr[";
         print_bound_type(os, get(4));
-        get(5).print(os, old) << "] (";
+        print_bound(os, old, get(5)) << "] (";
         os << (get(6).get_value() == kind_t::BOX ? "[] " : "<> ");
         get(7).print(os, old) << ")";
         break;
@@ -1201,7 +1210,7 @@ std::ostream& expression_t::print(std::ostream& os, bool old) const
     case SIMULATEREACH:
         os << "simulate[";
         print_bound_type(os, get(1));
-        get(2).print(os, old) << "; ";
+        print_bound(os, old, get(2)) << "; ";
         get(0).print(os, old) << "] {";
         nb = get_size() - 5;
         if (nb > 0) {
@@ -1216,7 +1225,7 @@ std::ostream& expression_t::print(std::ostream& os, bool old) const
     case SIMULATE:
         os << "simulate[";
         print_bound_type(os, get(1));
-        get(2).print(os, old) << "; ";
+        print_bound(os, old, get(2)) << "; ";
         get(0).print(os, old) << "] {";
         nb = get_size() - 3;
         if (nb > 0) {
@@ -1550,7 +1559,7 @@ std::ostream& expression_t::print(std::ostream& os, bool old) const
         assert(false);
         os << "control[";
         print_bound_type(os, get(0));
-        get(1).print(os, old) << "]: ";
+        print_bound(os, old, get(1)) << "]: ";
         get(2).print(os, old);
         break;
 
